@@ -200,8 +200,9 @@ pub fn observe(c: &Case) -> Result<Vec<Ev>, String> {
           }
         } else {
           let mut src = Subject::<'static, V, E>::default();
-          src
-            .clone()
+          // half of these pipelines have a (transparent) map in front of group_by
+          let up: rxrust::ops::box_it::BoxOp<'static, V, E> = if hash64(&c.script) % 2 == 0 { src.clone().map(|v: V| v).box_it() } else { src.clone().box_it() };
+          up
             .group_by::<_, i64, $subj>({
               let mut calls = 0i64;
               move |v: &V| {
@@ -352,7 +353,10 @@ pub fn judge(c: &Case, o: &Result<Vec<Ev>, String>) -> Option<(String, serde_jso
     // consults is_finished may stop driving the pipeline and a Subject withholds its terminal:
     // the groups are then only owed a prefix of their items (announcements stay exact)
     let want = per.get(k).unwrap();
-    let relaxed_ok = c.outer_takes.is_some() && saw.len() <= want.len() && want[..saw.len()] == saw[..];
+    // (no source used here consults is_finished before an item: every item is still owed, only
+    // the terminal may be withheld)
+    let items_only: Vec<N> = want.iter().filter(|n| !n.is_terminal()).cloned().collect();
+    let relaxed_ok = c.outer_takes.is_some() && saw == items_only;
     if &saw != want && !relaxed_ok {
       let kind = if grammar_violation(&saw).is_some() { "group_malformed" } else { "group_wrong_items" };
       return Some((kind.into(), show(format!("group {} saw {:?}, expected {:?}", k, saw, per.get(k).unwrap()))));
@@ -444,7 +448,95 @@ fn check(cfg: &Cfg, rep: &mut Report, id: &str, c: &Case) {
   }
 }
 
+/// a group's subscriber panics on one of its items (user code); the application catches the panic
+/// around the source call and goes on emitting: no key may be announced a second time, the groups
+/// keep receiving the later items of their keys, and the terminal reaches them. Local form.
+fn panicking_group_subscriber_battery(rep: &mut Report) {
+  use std::cell::RefCell;
+  use std::rc::Rc;
+  struct Picky {
+    key: i64,
+    log: Rc<RefCell<Vec<String>>>,
+  }
+  impl Observer<V, E> for Picky {
+    fn next(&mut self, v: V) {
+      if v.int() == 13 {
+        panic!("a group's subscriber fails on an item");
+      }
+      self.log.borrow_mut().push(format!("g{} {}", self.key, v.int()));
+    }
+    fn error(self, e: E) {
+      self.log.borrow_mut().push(format!("g{} error {}", self.key, e));
+    }
+    fn complete(self) {
+      self.log.borrow_mut().push(format!("g{} complete", self.key));
+    }
+    fn is_finished(&self) -> bool {
+      false
+    }
+  }
+  struct Groups {
+    log: Rc<RefCell<Vec<String>>>,
+  }
+  impl Observer<KeyObservable<i64, Subject<'static, V, E>>, E> for Groups {
+    fn next(&mut self, g: KeyObservable<i64, Subject<'static, V, E>>) {
+      self.log.borrow_mut().push(format!("announce {}", g.key));
+      let key = g.key;
+      std::mem::forget(g.actual_subscribe(Picky { key, log: self.log.clone() }));
+    }
+    fn error(self, e: E) {
+      self.log.borrow_mut().push(format!("outer error {}", e));
+    }
+    fn complete(self) {
+      self.log.borrow_mut().push("outer complete".into());
+    }
+    fn is_finished(&self) -> bool {
+      false
+    }
+  }
+  for (k, script) in [vec![1i64, 2, 13, 3, 4], vec![13, 1, 2, 15], vec![2, 4, 13, 13, 6, 1]].into_iter().enumerate() {
+    rep.evaluations += 1;
+    rep.count("cases_with_a_group_subscriber_that_panics", 1);
+    let id = format!("panicking:{}", k);
+    let log: Rc<RefCell<Vec<String>>> = Default::default();
+    let mut src = Subject::<'static, V, E>::default();
+    std::mem::forget(src.clone().group_by::<_, i64, Subject<'static, V, E>>(|v: &V| v.int() % 2).actual_subscribe(Groups { log: log.clone() }));
+    for v in &script {
+      let mut s2 = src.clone();
+      let v = *v;
+      let _ = std::panic::catch_unwind(std::panic::AssertUnwindSafe(move || s2.next(V::I(v))));
+    }
+    src.complete();
+    // expected: every key announced once at its first appearance, every item but the poisonous
+    // one delivered to the group of its key in order, both terminals
+    let mut want: Vec<String> = vec![];
+    let mut seen_keys: Vec<i64> = vec![];
+    for v in &script {
+      let key = v % 2;
+      if !seen_keys.contains(&key) {
+        seen_keys.push(key);
+        want.push(format!("announce {}", key));
+      }
+      if *v != 13 {
+        want.push(format!("g{} {}", key, v));
+      }
+    }
+    let got = log.borrow().clone();
+    rep.events += got.len() as u64;
+    let items_got: Vec<&String> = got.iter().filter(|l| !l.contains("complete")).collect();
+    let completes = got.iter().filter(|l| l.ends_with("complete")).count();
+    if items_got != want.iter().collect::<Vec<_>>() || completes != seen_keys.len() + 1 {
+      rep.violation("wrong_groups", "group_by[a group subscriber panics]", &id, json!({"script": script, "observed": got, "expected_before_the_terminals": want, "expected_terminals": seen_keys.len() + 1}));
+    } else {
+      rep.nontrivial.insert(hash64(&id));
+    }
+  }
+}
+
 pub fn run(cfg: &Cfg, rep: &mut Report) {
+  if cfg.shard == 0 && cfg.only_case.as_deref().map_or(true, |c| c.starts_with("panicking:")) {
+    panicking_group_subscriber_battery(rep);
+  }
   let len = cfg.n(5, 7);
   let keys = [KeyF::Const, KeyF::Ident, KeyF::Mod(2), KeyF::Mod(3)];
   let mut idx = 0usize;
